@@ -113,6 +113,8 @@ where
             }
         }
 
+        #[cfg(feature = "_verif_hooks")]
+        crate::verif::pos(input.len().saturating_sub(consumed_byte_count));
         self.remaining_content_start = 0;
     }
 
@@ -155,6 +157,8 @@ where
         }
 
         self.remaining_content_start = lexeme_range.start;
+        #[cfg(feature = "_verif_hooks")]
+        crate::verif::pos(lexeme.input().len() - self.remaining_content_start);
     }
 
     /// Advance `remaining_content_start` past the end of `lexeme`, marking it as committed.
@@ -164,6 +168,8 @@ where
     /// [`emit_chunk_before_lexeme()`]: Self::emit_chunk_before_lexeme
     fn consume_lexeme<T>(&mut self, lexeme: &Lexeme<'_, T>) {
         self.remaining_content_start = lexeme.raw_range().end;
+        #[cfg(feature = "_verif_hooks")]
+        crate::verif::pos(lexeme.input().len() - self.remaining_content_start);
     }
 
     #[inline]
@@ -481,6 +487,8 @@ where
         // will receive leftovers from the previous match. And, in case of end tag,
         // handlers will be disabled before the receive the finalizing chunk.
         self.flush_pending_captured_text()?;
+        #[cfg(feature = "_verif_hooks")]
+        crate::verif::pos_unchanged();
 
         if self.got_flags_from_hint {
             self.got_flags_from_hint = false;
@@ -492,6 +500,8 @@ where
             if self.delegate.should_stop_removing_element_content() {
                 self.delegate.emission_enabled = true;
                 self.delegate.remaining_content_start = lexeme.raw_range().start;
+                #[cfg(feature = "_verif_hooks")]
+                crate::verif::pos(lexeme.input().len() - self.delegate.remaining_content_start);
             }
         }
 
@@ -520,6 +530,8 @@ where
             // when it's None, it still needs a flush for CDATA
             _ => self.flush_pending_captured_text()?,
         }
+        #[cfg(feature = "_verif_hooks")]
+        crate::verif::pos_unchanged();
         self.try_produce_token_from_lexeme(lexeme)
     }
 }
@@ -559,6 +571,8 @@ where
         name: LocalName<'_>,
     ) -> Result<ParserDirective, RewritingError> {
         self.flush_pending_captured_text()?;
+        #[cfg(feature = "_verif_hooks")]
+        crate::verif::pos_unchanged();
 
         let mut flags = self.delegate.transform_controller.handle_end_tag(name);
 
